@@ -764,6 +764,16 @@ fn dump_thir<'tcx>(tcx: TyCtxt<'tcx>, cb: &mut Cb) {
                 J::Arr(sig.inputs().iter().map(|t| J::s(ty_str(*t))).collect()),
             );
             o.put("output", J::s(ty_str(sig.output())));
+            // generic parameter names in argument order (parents first): lets a caller's `targs` be substituted when a
+            // generic helper is inlined by the analysis
+            {
+                let gens = tcx.generics_of(did);
+                let mut names = Vec::new();
+                for i in 0..gens.count() {
+                    names.push(J::s(gens.param_at(i, tcx).name.to_string()));
+                }
+                o.put("generics", J::Arr(names));
+            }
             o.put("vis", J::s(format!("{:?}", tcx.visibility(did))));
             o.put(
                 "reachable_pub",
